@@ -4,7 +4,7 @@
 -/
 import RosuModel.Model.Curve
 import RosuModel.Lemmas.Outcome
-import RosuModel.Lemmas.ToyScalar
+import RosuModel.Lemmas.ToyInt
 import RosuModel.Lemmas.BezierPure
 namespace Rosu.C18
 open Rosu Rosu.Curve
